@@ -43,6 +43,8 @@ type DefaultMetricLogWriter struct {
 
 	curMetricFile    *os.File
 	curMetricIdxFile *os.File
+	// curFileIndexed tells whether the current file already has an index entry
+	curFileIndexed bool
 
 	metricOut *bufio.Writer
 	idxOut    *bufio.Writer
@@ -73,7 +75,15 @@ func (d *DefaultMetricLogWriter) Write(ts uint64, items []*base.MetricItem) erro
 		// ignore
 		return nil
 	}
-	if timeSec > d.latestOpSec {
+	if timeSec > d.latestOpSec && d.isNewDay(d.latestOpSec, timeSec) {
+		// roll first, so that the index entry of this second goes into the index of the file its lines go to
+		if err := d.rollToNextFile(ts); err != nil {
+			return errors.Wrap(err, "failed to roll the metric log")
+		}
+	}
+	// An index entry is needed for every new second and for the first lines of every file (the writer's
+	// creation second, or a second that continues after a roll): lines without one can never be found.
+	if timeSec > d.latestOpSec || !d.curFileIndexed {
 		pos, err := util.FilePosition(d.curMetricFile)
 		if err != nil {
 			return errors.Wrap(err, "cannot get current pos of the metric file")
@@ -81,11 +91,7 @@ func (d *DefaultMetricLogWriter) Write(ts uint64, items []*base.MetricItem) erro
 		if err = d.writeIndex(timeSec, pos); err != nil {
 			return errors.Wrap(err, "cannot write metric idx file")
 		}
-		if d.isNewDay(d.latestOpSec, timeSec) {
-			if err = d.rollToNextFile(ts); err != nil {
-				return errors.Wrap(err, "failed to roll the metric log")
-			}
-		}
+		d.curFileIndexed = true
 	}
 	// Write and flush
 	if err := d.writeItemsAndFlush(items); err != nil {
@@ -258,6 +264,7 @@ func (d *DefaultMetricLogWriter) closeCurAndNewFile(filename string) error {
 
 	d.curMetricIdxFile = mif
 	d.idxOut = bufio.NewWriter(mif)
+	d.curFileIndexed = false
 
 	return nil
 }
